@@ -1,5 +1,6 @@
 //! Correspondence harness: runs the real feoxdb code on generated cases and writes
 //! (a) the case lines for `modelrun` and (b) the implementation's canonical results.
+mod cachem;
 mod codec;
 mod crash;
 mod f3;
@@ -23,6 +24,7 @@ fn main() {
         "fs" => fsm::run(&opts),
         "img" => img::run(&opts),
         "codec" => codec::run(&opts),
+        "cache" => cachem::run(&opts),
         "seq" => seq::run(&opts),
         "tracegen" => crash::tracegen(&opts),
         "crash" => crash::run(&opts),
